@@ -61,6 +61,30 @@ let build_view lines =
                    { cf_map = g "map"; cf_level = g "level"; cf_type = g "type"; cf_id = g "id"; cf_size = g "size" }) } in
   { v_old = flag "old"; v_s390 = flag "s390"; v_amdcu = flag "amdcu"; v_knl = flag "knl"; v_caches = flag "caches"; v_dmcg = flag "dmcg";
     v_online = !online; v_cpus = Stdlib.List.rev_map mk !order }
+(* ---- the per-PU information printed by the harness when the x86 backend starts building objects ("x86 ..." lines) ---- *)
+let x86_lines : Stdlib.String.t list ref = ref [] and x86_view = ref None and x86_obs = ref []
+let build_x86 lines =
+  let flags = ref 0 and sw = Stdlib.Hashtbl.create 8 and procs = ref [] in
+  let ints s = Stdlib.List.filter_map (fun x -> if x = "" then None else Some (n_of_int (int_of_string x))) (split_on ',' s) in
+  Stdlib.List.iter (fun l ->
+    match split_on ' ' l with
+    | "x86" :: "begin" :: kvs ->
+        Stdlib.List.iter (fun kv -> match split_on '=' kv with
+                                    | ["flags"; v] -> flags := int_of_string v
+                                    | [k; v] -> Stdlib.Hashtbl.replace sw k (v <> "0") | _ -> ()) kvs
+    | "x86" :: "proc" :: _ :: rest ->
+        let h = Stdlib.Hashtbl.create 8 in
+        Stdlib.List.iter (fun kv -> match split_on '=' kv with [k; v] -> Stdlib.Hashtbl.replace h k v | [k] -> Stdlib.Hashtbl.replace h "cachelist" k | _ -> ()) rest;
+        let g k = match Stdlib.Hashtbl.find_opt h k with Some v -> v | None -> "" in
+        let caches = Stdlib.List.filter_map (fun c -> match split_on ':' c with
+                                                      | lv :: ty :: id :: _ -> Some { xc_level = n_of_int (int_of_string lv); xc_type = n_of_int (int_of_string ty); xc_id = n_of_int (int_of_string id) }
+                                                      | _ -> None) (split_on ';' (g "cachelist")) in
+        procs := { xp_present = g "present" <> "0"; xp_ids = ints (g "ids"); xp_levels = n_of_int (int_of_string (g "levels"));
+                   xp_other = (if g "other" = "-" then None else Some (ints (g "other"))); xp_caches = caches } :: !procs
+    | _ -> ()) lines;
+  let f k = match Stdlib.Hashtbl.find_opt sw k with Some b -> b | None -> false in
+  { xv_flags = n_of_int !flags; xv_die = f "die"; xv_complex = f "complex"; xv_unit = f "unit"; xv_module = f "module"; xv_tile = f "tile";
+    xv_procs = Stdlib.List.rev !procs }
 let lobs_of (d : dobj) = ((((d.o_type, d.o_os), d.o_cs), (d.o_group_kind, d.o_group_subkind)), (d.o_cache_depth, d.o_cache_type))
 let bytes_of_string s = Stdlib.List.init (Stdlib.String.length s + 1) (fun i -> if i < Stdlib.String.length s then n_of_int (Stdlib.Char.code s.[i]) else n_of_int 0)
 let contains s sub = let n = Stdlib.String.length s and m = Stdlib.String.length sub in let rec go i = i + m <= n && (Stdlib.String.sub s i m = sub || go (i + 1)) in go 0
@@ -125,9 +149,11 @@ let () =
        | 20 -> (* light trace: a normal object handed to the core at the root *)
                let o = Stdlib.List.nth p.pd.t_objs 0 in
                (if !lcpu_view <> None then lcpu_obs := lobs_of o :: !lcpu_obs);
+               (if !x86_view <> None then x86_obs := lobs_of o :: !x86_obs);
                (if !synth_desc <> None then synth_obs := obs_of o :: !synth_obs)
        | 22 -> (* light trace: a memory object handed to the core *)
                let o = Stdlib.List.nth p.pd.t_objs 0 in
+               (if !x86_view <> None then x86_obs := lobs_of o :: !x86_obs);
                (if !synth_desc <> None then synth_obs := obs_of o :: !synth_obs)
        | 12 -> p12 := Some p; in_find_parent := true;
                (if !synth_desc <> None then
@@ -185,6 +211,13 @@ let () =
               print_endline ((if ok then "linuxcpu ok n=" else "linuxcpu DIFF model=") ^ string_of_int (int_of_nat n) ^ " observed=" ^ string_of_int (Stdlib.List.length !lcpu_obs))
           | None -> ());
          lcpu_view := None; lcpu_obs := []; lcpu_lines := [];
+         (match !x86_view with
+          | Some v ->
+              (match x86_agrees p.pd.t_filters v (Stdlib.List.rev !x86_obs) with
+               | Some (ok, n) -> print_endline ((if ok then "x86req ok n=" else "x86req DIFF model=") ^ string_of_int (int_of_nat n) ^ " observed=" ^ string_of_int (Stdlib.List.length !x86_obs))
+               | None -> print_endline "x86req skipped annotate-mode")
+          | None -> ());
+         x86_view := None; x86_obs := []; x86_lines := [];
          (match wf_check p.pd with
           | [] -> print_endline "wf ok"
           | vs -> print_endline ("wf VIOLATION " ^ Stdlib.String.concat " " (Stdlib.List.map (fun (c, i) -> ocaml_of_coq_string c ^ "@" ^ string_of_int (int_of_n i)) vs)));
@@ -197,10 +230,13 @@ let () =
                         | None -> print_endline "totals DIFF tree")
           | None -> ()); p5 := None
        | _ -> ())
-    (fun l -> (if Stdlib.String.length l >= 5 && Stdlib.String.sub l 0 5 = "lcpu " then
+    (fun l -> (if Stdlib.String.length l >= 4 && Stdlib.String.sub l 0 4 = "x86 " then
+                 (if l = "x86 end" then (x86_view := Some (build_x86 (Stdlib.List.rev !x86_lines)); x86_obs := []; x86_lines := [])
+                  else x86_lines := l :: !x86_lines));
+              (if Stdlib.String.length l >= 5 && Stdlib.String.sub l 0 5 = "lcpu " then
                  (if l = "lcpu end" then (lcpu_view := Some (build_view (Stdlib.List.rev !lcpu_lines)); lcpu_obs := []; lcpu_lines := [])
                   else lcpu_lines := l :: !lcpu_lines));
               (if Stdlib.String.length l > 10 && Stdlib.String.sub l 0 10 = "synthdesc " then (synth_desc := Some (Stdlib.String.sub l 10 (Stdlib.String.length l - 10)); synth_obs := []; synth_pending := true)
                else if !synth_pending && Stdlib.String.length l >= 10 && Stdlib.String.sub l 0 10 = "config rc=" then
                  (synth_pending := false; if l <> "config rc=0" then synth_desc := None));   (* hwloc_topology_set_synthetic refused the description *)
-              if l = "new rc=0" then (lcpu_view := None; lcpu_obs := []; lcpu_lines := []; synth_desc := None; synth_obs := []; in_find_parent := false; p1 := None; p5 := None; p3 := None; p4 := None; p10 := None; p12 := None; p14 := None; ins_calls := 0; ins_bad := []; mem_calls := 0; mem_bad := []); (if not (Stdlib.String.length l >= 5 && Stdlib.String.sub l 0 5 = "lcpu ") then print_endline l))
+              if l = "new rc=0" then (x86_view := None; x86_obs := []; x86_lines := []; lcpu_view := None; lcpu_obs := []; lcpu_lines := []; synth_desc := None; synth_obs := []; in_find_parent := false; p1 := None; p5 := None; p3 := None; p4 := None; p10 := None; p12 := None; p14 := None; ins_calls := 0; ins_bad := []; mem_calls := 0; mem_bad := []); (if not ((Stdlib.String.length l >= 5 && Stdlib.String.sub l 0 5 = "lcpu ") || (Stdlib.String.length l >= 4 && Stdlib.String.sub l 0 4 = "x86 ")) then print_endline l))
